@@ -446,13 +446,31 @@ int xmp_set_player__(xmp_context opaque, int parm, int val)
 	/* 4.4 */
 	case XMP_PLAYER_MODE:
 		if (val >= XMP_MODE_AUTO && val <= XMP_MODE_ITSMP) {
+			const int old_mode = p->mode;
+			const int c4rate = m->c4rate, quirk = m->quirk;
+			const int flow_mode = m->flow_mode;
+			const int read_event_type = m->read_event_type;
+			const int period_type = m->period_type;
+			const int compare_vblank = m->compare_vblank;
 			p->mode = val;
 			libxmp_set_player_mode(ctx);
-			libxmp_scan_sequences(ctx);
+			if (libxmp_scan_sequences(ctx) < 0) {
+				/* nothing is playable with the order list read
+				 * the new mode's way: keep the old mode */
+				p->mode = old_mode;
+				m->c4rate = c4rate;
+				m->quirk = quirk;
+				m->flow_mode = flow_mode;
+				m->read_event_type = read_event_type;
+				m->period_type = period_type;
+				m->compare_vblank = compare_vblank;
+				libxmp_scan_sequences(ctx);
+			} else {
+				ret = 0;
+			}
 			/* the rescan may find fewer sequences than before */
 			if (p->sequence >= m->num_sequences)
 				p->sequence = 0;
-			ret = 0;
 		}
 		break;
 	case XMP_PLAYER_VOICES:
